@@ -416,6 +416,9 @@ def run(ctx):
     # what a reopen can replay is what journal maintenance left on disk: the evict rule (decided for C10) is part of this property as well
     from . import c10
     c10.check_maintenance(ctx, confirm=lambda: native_reopen(ctx), with_reclaim=False)
+    # values above the journal compression threshold come back through the LZ4 path of the journal codec: writer and reader must agree on what is stored (C15's obligation)
+    from . import c15
+    c15.check_lz4_coherent(ctx)
     ctx.assumptions += [
         'E8: get_highest_persisted_seqno reports the maximum seqno over the tables of a tree; a table item with seqno s supersedes journal records with seqno <= s',
         'E2: among entries of one key the highest seqno wins (lsm-tree read path); the equality of content after replay follows from the apply rule + E2',
